@@ -39,3 +39,157 @@ Theorem c03_id_not_reused : forall s n n', reachable_wf s ->
   n <> n' -> key2 n <> key2 n'.
 Proof. intros s n n' H. apply ids_in_flight_distinct2, reachable_wf_inv, H. Qed.
 Print Assumptions c03_id_not_reused.
+
+(* ---- the closed loop: client + conforming broker + one FIFO connection at a time ---- *)
+(* Additions for coq/props/C03.v — broker side (closed loop client + connection + conforming
+   broker, theories/BrokerWorld.v).  Needs, next to the existing imports of props/C03.v:
+     From Coq Require Import ZArith List.
+     From MQ Require Import AdoptProofs BrokerWorld.
+   (standalone here so that it can be compiled on its own:
+     coqc -Q theories MQ -Q gen MQG -Q props MQP -Q /verif/work/prover-broker SB
+          /verif/work/prover-broker/C03_additions.v) *)
+From Coq Require Import ZArith List.
+From MQ Require Import Session Outbound OutboundInv OutboundRefine SessionTheorems AdoptProofs BrokerWorld.
+Import ListNotations.
+Local Open Scope N_scope.
+
+(* ---- the tie of the world's client to the proved sender machine ---- *)
+
+(* Every step of the abstract sender machine (which every API call refines, OutboundRefine) is,
+   on the four exactly-once numbers, an accept / in-order PUBREC / in-order PUBCOMP step of the
+   slim client or invisible. *)
+Theorem c03_slim_client : forall st st', OInv' st -> ostep st st' ->
+  slim st' = slim st \/ cstep (slim st) (slim st').
+Proof. exact ostep_slim. Qed.
+Print Assumptions c03_slim_client.
+
+(* Process stop + AdoptSession is a restart of the slim client: window sizes kept, counters
+   moved down by a common multiple of 2^14 (anything when nothing is pending). *)
+Theorem c03_slim_restart : forall st st',
+  OInv' st -> known_keys st -> markers_genuine st -> adopts st st' -> crestart (slim st) (slim st').
+Proof. exact adopts_slim. Qed.
+Print Assumptions c03_slim_restart.
+
+(* The client part of every step of the closed world is such a step (or none). *)
+Theorem c03_world_client : forall w l w', wstep w l w' ->
+  w_cl w' = w_cl w \/ cstep (w_cl w) (w_cl w') \/ crestart (w_cl w) (w_cl w').
+Proof. exact wstep_client. Qed.
+Print Assumptions c03_world_client.
+
+(* ---- (a) at most once ---- *)
+
+Theorem c03_forwarded_at_most_once : forall w, wreach w -> NoDup (w_fwd w).
+Proof. exact at_most_once. Qed.
+Print Assumptions c03_forwarded_at_most_once.
+
+Theorem c03_forwarded_at_most_once_count : forall w x, wreach w ->
+  (count_occ N.eq_dec (w_fwd w) x <= 1)%nat.
+Proof. exact at_most_once_count. Qed.
+Print Assumptions c03_forwarded_at_most_once_count.
+
+(* ---- (b) only accepted messages; a recorded PUBREC means the message was forwarded ---- *)
+
+Theorem c03_only_accepted_forwarded : forall w x, wreach w -> In x (w_fwd w) -> x < w_base w + wA w.
+Proof. exact only_accepted. Qed.
+Print Assumptions c03_only_accepted_forwarded.
+
+Theorem c03_pubrec_means_forwarded : forall w x, wreach w -> x < w_base w + wR w -> In x (w_fwd w).
+Proof. exact received_forwarded. Qed.
+Print Assumptions c03_pubrec_means_forwarded.
+
+Theorem c03_forwarded_stays : forall w l w' x, wstep w l w' -> In x (w_fwd w) -> In x (w_fwd w').
+Proof. exact forwarded_stable. Qed.
+Print Assumptions c03_forwarded_stays.
+
+(* ---- (c) identifier safety ---- *)
+
+(* An identifier held by the broker stands for exactly one pending message, already forwarded. *)
+Theorem c03_broker_id_window : forall w id, wreach w -> In id (w_await w) ->
+  exists n, (wC w <= n < wA w /\ id = key2 n /\ In (w_base w + n) (w_fwd w)) /\
+            forall n', wC w <= n' < wA w -> id = key2 n' -> n' = n.
+Proof. exact awaiting_window. Qed.
+Print Assumptions c03_broker_id_window.
+
+(* A message without recorded PUBREC that was forwarded is still held: its retransmission
+   (PUBLISH with DUP after Break or Restart) is not forwarded again. *)
+Theorem c03_retransmission_suppressed : forall w n, wreach w ->
+  wR w <= n < wA w -> In (w_base w + n) (w_fwd w) -> In (key2 n) (w_await w).
+Proof. exact pending_publish_awaited. Qed.
+Print Assumptions c03_retransmission_suppressed.
+
+(* The identifier of the next accepted message is not held by the broker: an identifier is
+   reused only after the PUBCOMP, and the broker dropped it at the PUBREL before. *)
+Theorem c03_fresh_identifier : forall w, wreach w ->
+  wA w - wC w < c_max (w_cl w) -> ~ In (key2 (wA w)) (w_await w).
+Proof. exact fresh_id_not_awaiting. Qed.
+Print Assumptions c03_fresh_identifier.
+
+(* On a live connection the acknowledgements reach the client in order: the protocol-error
+   reset of on_pubrec / on_pubcomp never fires against a conforming broker (no livelock by
+   duplicate PUBRECs). *)
+Theorem c03_acks_in_order : forall w w', wreach w -> ~ wstep w LReject w'.
+Proof. exact client_never_rejects. Qed.
+Print Assumptions c03_acks_in_order.
+
+(* ---- (d) exactly once when the faults stop ---- *)
+
+(* every step of broker, connection or client other than Accept/Break/Restart lowers mu by one *)
+Theorem c03_progress_measure : forall w l w', wreach w -> wstep w l w' -> is_progress l = true ->
+  mu w = mu w' + 1.
+Proof. intros w l w' H. apply good_step_measure, world_inv, H. Qed.
+Print Assumptions c03_progress_measure.
+
+Theorem c03_progress_enabled : forall w, mu w <> 0 -> exists l w', is_progress l = true /\ wstep w l w'.
+Proof. exact progress_enabled. Qed.
+Print Assumptions c03_progress_enabled.
+
+(* quiescence = every accepted message forwarded exactly once, handshakes finished *)
+Theorem c03_quiescent_exactly_once : forall w, wreach w -> quiescent w ->
+  complete w /\ forall x, count_occ N.eq_dec (w_fwd w) x = if x <? w_base w + wA w then 1%nat else 0%nat.
+Proof.
+  intros w H Hq. pose proof (quiescent_complete w H Hq) as Hc. split; [exact Hc|].
+  intros x. apply complete_exactly_once, Hc.
+Qed.
+Print Assumptions c03_quiescent_exactly_once.
+
+(* a run without Break/Restart: p progress steps, a Accepts: p <= mu + 4a, and it is complete
+   when it cannot be continued or has that length *)
+Theorem c03_fault_free_run_bound : forall w p a w', wreach w -> frun w p a w' ->
+  mu w + 4 * N.of_nat a = mu w' + N.of_nat p.
+Proof. exact good_run_bound. Qed.
+Print Assumptions c03_fault_free_run_bound.
+
+Theorem c03_fault_free_run_complete : forall w p a w', wreach w -> frun w p a w' ->
+  (quiescent w' \/ N.of_nat p = mu w + 4 * N.of_nat a) -> complete w'.
+Proof. exact good_run_complete. Qed.
+Print Assumptions c03_fault_free_run_complete.
+
+Theorem c03_fault_free_run_exists : forall w, wreach w ->
+  exists w', frun w (N.to_nat (mu w)) 0 w' /\ complete w'.
+Proof. exact good_run_exists. Qed.
+Print Assumptions c03_fault_free_run_exists.
+
+(* ---- non-vacuity: reachable states with a retransmission ---- *)
+
+(* PUBLISH 0 forwarded, PUBREC lost with the connection, PUBLISH 0 sent again after the
+   reconnect and processed by the broker: forwarded once, PUBREC under way. *)
+Example c03_retransmission_forwarded_once :
+  exists w, wrun (winit 4) [AReconnect; AAccept; ABroker; ABreak; AReconnect; ABroker] = Some w /\
+    wreach w /\
+    w_fwd w = [0] /\ w_await w = [key2 0] /\ w_b2c w = [DRec (key2 0) 0] /\ w_c2b w = [] /\
+    wR w = 0 /\ wA w = 1.
+Proof. exact retransmission_forwarded_once. Qed.
+
+(* the same continued: PUBREC read, PUBREL processed, PUBCOMP lost with the connection, process
+   restart (AdoptSession), PUBREL sent again, PUBCOMP for the unknown identifier: complete. *)
+Example c03_restart_forwarded_once :
+  exists w, wrun (winit 4) restart_trace = Some w /\ wreach w /\ complete w /\ w_fwd w = [0].
+Proof. exact restart_forwarded_once. Qed.
+
+(* the boundary of the broker model (not a property of the client): if the broker drops its
+   session (restart of the client process with Config.CleanSession = true), the retransmitted
+   PUBLISH is forwarded a second time *)
+Example c03_clean_session_boundary :
+  exists w w', wrun (winit 4) clean_trace = Some w /\ wreach w /\
+    wrun (session_wiped w) [AReconnect; ABroker] = Some w' /\ w_fwd w' = [0; 0].
+Proof. exact clean_session_restart_duplicates. Qed.
